@@ -88,6 +88,23 @@ Fixpoint resolve (st : nstore) (rootnode : option snode) (endv : N) (il : list i
   | IBad :: _ => None                                                 (* writelog.go:160-162 *)
   end.
 
+(* the same loop over an arbitrary view of the node slots (used by the storage
+   model, where the view is an MVCC read) *)
+Fixpoint resolve_with (lookup : dbkey -> option snode) (rootnode : option snode) (endv : N)
+  (il : list ientry) : option writelog :=
+  match il with
+  | [] => Some []
+  | IDelete k :: r =>
+      match resolve_with lookup rootnode endv r with Some wl => Some ((k, None) :: wl) | None => None end
+  | IInsert p :: r =>
+      let node := if dbkey_eqb p (endv, INDEX_ROOT) then rootnode else lookup p in
+      match node, resolve_with lookup rootnode endv r with
+      | Some n, Some wl => Some (leaf_from_db n :: wl)
+      | _, _ => None
+      end
+  | IBad :: _ => None
+  end.
+
 (* ---------- which pointer an inserted leaf carries at commit ---------- *)
 Fixpoint is_prefix (a b : bytes) : bool :=
   match a, b with
